@@ -213,6 +213,23 @@ def judgeLine (line : String) : String :=
     | _, _ => "violates unparsable-observation"
   | _ => "bad-op"
 
+/-- Every clause that fails when the judge carries on after a failing step (with the state that step left): used to name what
+    else a history shows beyond its first violation (known finding F42: `no-success` at the response, then `copy-after-stop`). -/
+def judgeAllLine (line : String) : String :=
+  match line.splitOn " || " with
+  | [inp, obs] =>
+    match parseOps inp, (obs.splitOn " | ").mapM parseSeg with
+    | some (.cfg a m n :: ops), some (_ :: segs) =>
+      if ops.length != segs.length then "violates unparsable-observation" else
+      let steps : List Step := (ops.zip segs).map (fun p => ⟨toSpecEv p.1, p.2.1, p.2.2⟩)
+      let c : Cfg := ⟨a, m, n⟩
+      let r := steps.foldl (fun (acc : Spec.Retransmit.JState × Nat × List String) st =>
+        let x := Spec.Retransmit.stepJ c acc.1 st
+        (x.1, acc.2.1 + 1, if x.2 == .ok then acc.2.2 else acc.2.2 ++ [s!"{fmtVerdict x.2} step={acc.2.1 + 1}"])) ({}, 0, [])
+      if r.2.2.isEmpty then "ok" else "violates " ++ "; ".intercalate r.2.2
+    | _, _ => "violates unparsable-observation"
+  | _ => "bad-op"
+
 /-- body the scripted peer of the `late` lines serves: byte i = 'a' + i % 23 -/
 def lateBody (n : Nat) : List UInt8 := (List.range n).map (fun i => UInt8.ofNat (97 + i % 23))
 
@@ -248,7 +265,8 @@ def main (args : List String) : IO UInt32 := do
   match args with
   | ["model"] => Driver.forLines stdin fun l => stdout.putStrLn (Driver.C06.model l)
   | ["judge"] => Driver.forLines stdin fun l => stdout.putStrLn (Driver.C06.judgeLine l)
+  | ["judgeall"] => Driver.forLines stdin fun l => stdout.putStrLn (Driver.C06.judgeAllLine l)
   | ["latejudge"] => Driver.forLines stdin fun l => stdout.putStrLn (Driver.C06.lateJudge l)
-  | _ => IO.eprintln "usage: drv_c06 model|judge|latejudge"; return 2
+  | _ => IO.eprintln "usage: drv_c06 model|judge|judgeall|latejudge"; return 2
   stdout.flush
   return 0
